@@ -207,3 +207,11 @@ impl Polyline {
 // R12 target: `(lo..=hi).contains(&t)` on f64 (std RangeInclusive::contains = lo <= t && t <= hi)
 #[verifier::external_body]
 pub fn vf_in_closed_range(lo: f64, hi: f64, t: f64) -> (r: bool) ensures r == (rv(lo) <= rv(t) <= rv(hi)) { (lo..=hi).contains(&t) }
+
+// f64 typing facts for the all-f64 stand-in structs above (see vf/README.md Addenda; f64_typed is emitted at //@lits)
+pub broadcast axiom fn ax_c11_typed_point_x(s: Point2) ensures #[trigger] s.x == f64_typed(s, 0);
+pub broadcast axiom fn ax_c11_typed_point_y(s: Point2) ensures #[trigger] s.y == f64_typed(s, 1);
+pub broadcast axiom fn ax_c11_typed_vector_x(s: Vector2) ensures #[trigger] s.x == f64_typed(s, 0);
+pub broadcast axiom fn ax_c11_typed_vector_y(s: Vector2) ensures #[trigger] s.y == f64_typed(s, 1);
+pub broadcast axiom fn ax_c11_typed_ball(s: Ball) ensures #[trigger] s.radius == f64_typed(s, 0);
+pub broadcast group c11_typing { ax_c11_typed_point_x, ax_c11_typed_point_y, ax_c11_typed_vector_x, ax_c11_typed_vector_y, ax_c11_typed_ball }
